@@ -8,7 +8,8 @@ Three families of cases, all run through the real class and through the Coq mode
             tscale() calls in between; per event: output, wg.iw, number of distinct amplitude
             buffers seen so far                                               -> Run.v mode 2
   repr      the triple handed to the constructor as Python int / NumPy signed / unsigned / float
-            scalars (all three, or only ns)                                   -> Run.v mode 3 (nwin)
+            scalars (all three, or only ns): the object must behave exactly as for the same Python
+            ints, nwin included (since repo 01d7a00 the count uses the converted attributes) -> Run.v mode 0
 """
 import json
 import warnings
@@ -25,7 +26,7 @@ TRUSTED = [
     "Coq 8.16.1 kernel + vm_compute (no native_compute); C17 theorems: Closed under the global context, except the two "
     "float64 theorems (Flocq 4.1 + Coq Reals: sig_forall_dec, sig_not_dec, functional_extensionality_dep, classic)",
     "hand-written models coq/C17/Model.v (generators) and coq/C17/Object.v (object state machine: shared iw, "
-    "amplitude-buffer allocation, raw-argument window count) of ibldsp.utils.WindowGenerator, tied to /repo/src "
+    "amplitude-buffer allocation) of ibldsp.utils.WindowGenerator, tied to /repo/src "
     "by this run's correspondence",
     "Python generator semantics as modelled: creating a generator runs no code; one next() runs to the next yield; "
     "a generator that raised is finished",
@@ -33,7 +34,6 @@ TRUSTED = [
     "exact ceiling as formalised by Flocq (BinarySingleNaN.binary_normalize / Bdiv); under that reading the exact integer "
     "ceiling in Model.nwin is a theorem for |ns-nswin|, nswin-overlap < 2^53 (C17_nwin_float64_exact), and is also validated "
     "on large random triples",
-    "NumPy 2 scalar arithmetic (NEP 50): uintN - int stays uintN and wraps modulo 2^N (modelled for N = 16, 32; N = 64 only observed)",
     "Hann ramp kept symbolic in the splicing theorem; hypothesis w[j]+w[ov-1-j]=1 is the source's own runtime assertion",
     "harness/pC17.py generators, canonicaliser (buffer identity via np.shares_memory) and oracle",
     "extraction (Require Extraction, ExtrOcamlBasic only: bool/option/unit/list/prod/sumbool/sumor + andb/orb inlined; Z, positive kept inductive), harness/driver.ml, ocamlfind ocamlopt; a sample of the same cases is re-evaluated by the kernel (vm_compute)",
@@ -538,7 +538,7 @@ def _work(job):
     else:   # representations of the constructor arguments
         for (ns, w, o) in items:
             b = impl_observe(ns, w, o, False, interleave=False)
-            bump("unsigned_ns_lt_nswin_triples", ns < w)
+            bump("triples_with_ns_lt_nswin", ns < w)
             for rep, (conv, rclass, ubits, _) in REPRS.items():
                 if rep == "int":
                     continue
@@ -563,10 +563,11 @@ def _work(job):
                     for k in ("fl", "valid", "ts", "slices"):
                         if obs[k] != b[k]:
                             res["disagrees"].append(("%s depends on the representation of the arguments" % k, d))
-                    if ubits in (0, 16, 32):
-                        inputs.append([ns, w, o, 3, ubits])
-                        outputs.append([obs["nwin"]])
-                        descr.append(d)
+                    if obs["nwin"] != b["nwin"]:
+                        res["disagrees"].append(("nwin depends on the representation of the arguments", d))
+                    inputs.append(enc_inp(obs))       # the same model as for Python ints, nwin included
+                    outputs.append(enc_obs(obs))
+                    descr.append(d)
     # the same inputs through the extracted Coq model
     model = _EX.run_many(inputs, nproc=1) if inputs else []
     res["nmodel"] = len(inputs)
@@ -656,7 +657,8 @@ def run(ctx):
              "tscale() inside the loop, and through the Coq model; (2) random schedules of next()/tscale() over "
              "1-6 views of one object (zip, random, sequential, nested, lone-tail patterns) compared event by "
              "event (output, wg.iw, number of distinct amplitude buffers) with the Coq state machine; "
-             "(3) the triples' arguments given as 11 NumPy/float representations (all three / only ns); "
+             "(3) the triples' arguments given as 11 NumPy/float representations (all three / only ns), every "
+             "observation compared with the same Coq model as for Python ints; "
              "non-trivial = more than one window (triples) / two or more views advanced and more than one "
              "window yielded (schedules); distinct by triple / by (triple, views, schedule)",
         samples=smp, evaluations=sum(counts.values()), distinct_nontrivial=nontrivial,
@@ -665,7 +667,7 @@ def run(ctx):
                                          "representations": counts["repr"]},
                "worker_processes": nproc, "exhaustive": False, "box_exhaustive": bool(ctx.thorough())},
         assumptions=["Python float arithmetic is IEEE-754 binary64 as formalised by Flocq (operands below 2^53)",
-                     "NumPy >= 2 scalar promotion (NEP 50) for unsigned arguments"])
+                     ])
 
 
 def replay(ctx, data):
@@ -694,11 +696,9 @@ def replay(ctx, data):
             print("arguments as %s (%s): nwin=%d, windows produced=%d; as int: nwin=%d" % (
                 inp["repr"], inp["which"], obs["nwin"], len(obs["fl"]), ref["nwin"]))
             print("property clauses failing on the implementation:", bad)
-            ub = REPRS[inp["repr"]][2]
-            ids = [] if ub == 64 else common.coq_mismatches(
-                PROP, HEADER, [common.flat_cases_term(0, [ns, w, o, 3, ub], [obs["nwin"]])])
-            print("kernel-evaluated nwin_raw agrees with implementation:", not ids)
-            same = all(obs[k] == ref[k] for k in ("fl", "valid", "ts", "slices"))
+            ids = common.coq_mismatches(PROP, HEADER, [common.flat_cases_term(0, enc_inp(obs), enc_obs(obs))])
+            print("kernel-evaluated model (same as for Python ints) agrees with implementation:", not ids)
+            same = all(obs[k] == ref[k] for k in ("nwin", "fl", "valid", "ts", "slices"))
             return 1 if (bad or ids or not same) else 0
         obs = impl_observe(ns, w, o, ns <= 5000)
     except Exception as e:
